@@ -32,76 +32,7 @@ fn is_zero(x: &u32) -> bool {
     *x == 0
 }
 
-/// The clock seam: every clock the process reads through libc goes through an LD_PRELOAD
-/// interposer (clockshim.c) whose offset the simulator owns. rqsim builds the interposer and
-/// re-executes itself under it; nothing in /repo reads a clock today, so on the unchanged tree a
-/// jump is a no-op by construction -- it exists so that a cache that starts to depend on idle time
-/// (expiry, clean-up) is exercised across long idle periods in microseconds.
-pub mod clock {
-    use std::ffi::c_void;
-    use std::os::unix::process::CommandExt;
-    const SHIM_SRC: &str = include_str!("clockshim.c");
-    extern "C" {
-        fn dlsym(handle: *mut c_void, symbol: *const u8) -> *mut c_void;
-    }
-    type Adv = unsafe extern "C" fn(i64);
-    fn advance_fn() -> Option<Adv> {
-        // RTLD_DEFAULT is the null handle on glibc
-        let p = unsafe { dlsym(std::ptr::null_mut(), b"verif_clock_advance\0".as_ptr()) };
-        if p.is_null() {
-            None
-        } else {
-            Some(unsafe { std::mem::transmute::<*mut c_void, Adv>(p) })
-        }
-    }
-    pub fn loaded() -> bool {
-        advance_fn().is_some()
-    }
-    /// advance the simulated clock; false if the seam is not in place
-    pub fn advance_s(secs: u32) -> bool {
-        match advance_fn() {
-            Some(f) => {
-                unsafe { f(secs as i64 * 1_000_000_000) };
-                true
-            }
-            None => false,
-        }
-    }
-    /// make sure this process runs under the interposer: build it and re-exec once if it does not
-    pub fn ensure(verif_dir: &std::path::Path) {
-        if loaded() {
-            return;
-        }
-        if std::env::var("VERIF_CLOCKSHIM").is_ok() {
-            eprintln!("HARNESS-ERROR: clock interposer preloaded but its symbols are not visible");
-            std::process::exit(2);
-        }
-        let dir = verif_dir.join("sim").join("target").join("scratch");
-        let _ = std::fs::create_dir_all(&dir);
-        let src = dir.join(format!("clockshim-{}.c", std::process::id()));
-        let tmp = dir.join(format!("libclockshim-{}.so", std::process::id()));
-        let so = dir.join("libclockshim.so");
-        let built = std::fs::write(&src, SHIM_SRC).is_ok()
-            && std::process::Command::new("cc")
-                .args(["-shared", "-fPIC", "-O1", "-o"])
-                .arg(&tmp)
-                .arg(&src)
-                .arg("-ldl")
-                .status()
-                .map(|s| s.success())
-                .unwrap_or(false)
-            && std::fs::rename(&tmp, &so).is_ok();
-        let _ = std::fs::remove_file(&src);
-        if !built {
-            eprintln!("HARNESS-ERROR: cannot build the clock interposer with cc in {}", dir.display());
-            std::process::exit(2);
-        }
-        let exe = std::env::current_exe().expect("current_exe");
-        let err = std::process::Command::new(exe).args(std::env::args_os().skip(1)).env("LD_PRELOAD", &so).env("VERIF_CLOCKSHIM", "1").exec();
-        eprintln!("HARNESS-ERROR: re-exec under the clock interposer failed: {err}");
-        std::process::exit(2);
-    }
-}
+use crate::clock;
 
 #[derive(Clone, Debug, Serialize, Deserialize, PartialEq)]
 pub struct History {
